@@ -21,6 +21,8 @@ import (
 	"github.com/sirupsen/logrus"
 )
 
+type simItem = sim.Item
+
 // Violation is one oracle verdict against one execution.
 type Violation struct {
 	Oracle string `json:"oracle"` // stable oracle id, e.g. "C06.exactly-once"
